@@ -1634,6 +1634,8 @@ def run(chk):
 
     from verif import fallthrough
     fallthrough.run(chk, "C05", floor=45)
+    from verif import moved
+    moved.run(chk, "C05", r"^/repo/opm/(output|input/eclipse/Schedule)/", floor=105)
     from verif import argorder
     argorder.run(chk, "C05", floor=170)
 
